@@ -1142,6 +1142,7 @@ pub fn generate(seed: u64) -> C11Scenario {
         memory_safe: backend == Backend::Memory,
         allow_outside: matches!(backend, Backend::SimFs | Backend::Memory),
         allow_source_alias: true,
+        allow_late_luaurc: true,
     };
     let mut project = gen::gen_project(&mut rp, &knobs);
     if minify {
@@ -1157,6 +1158,7 @@ pub fn generate(seed: u64) -> C11Scenario {
     }
     let mut parts = gen::gen_config_parts(&mut rc, project.bundle.as_deref());
     parts.bundle_sources = project.sources.iter().any(|s| s.via_source);
+    parts.bundle_luau_aliases = project.config_alias.iter().cloned().collect();
     let mut convert_to_path = false;
     if project.convert {
         if rc.chance(1, 3) {
